@@ -243,7 +243,8 @@ def run_shards(binary, args, nshards, rundir, env=None, timeout=1800, tag="s", s
         outs.append(op)
         cmd = [binary] + [str(a) for a in args] + ["--shard", str(i), "--nshards", str(nshards),
                                                    "--start", str(start_at)]
-        p = subprocess.Popen(cmd, stdout=open(op, "w"), stderr=open(ep, "w"), env=e,
+        pe = dict(e, VH_CASE_FILE=os.path.join(rundir, "%s%d.%d.case" % (tag, i, attempt)))
+        p = subprocess.Popen(cmd, stdout=open(op, "w"), stderr=open(ep, "w"), env=pe,
                              stdin=subprocess.DEVNULL)
         procs[p.pid] = (p, i, attempt, ep, time.time())
 
@@ -274,6 +275,14 @@ def run_shards(binary, args, nshards, rundir, env=None, timeout=1800, tag="s", s
                     case = json.loads(m.group(1))
                 except Exception:
                     case = {"raw": m.group(1)}
+            if case is None:
+                # the process died without running our death callback: read the case in flight from the mapped file
+                try:
+                    raw = open(ep[:-4] + ".case", "rb").read().split(b"\0", 1)[0].decode("latin-1")
+                    idx_s, _, body = raw.partition("\n")
+                    case = json.loads('{"idx":%d%s%s}' % (int(idx_s), "," if body else "", body))
+                except Exception:
+                    case = None
             if rc == 2 and "@@HARNESS" in err:
                 raise HarnessFailure("driver reported harness failure: " + err[-2000:])
             key = san_key(err) or ("exit:%d" % rc)
@@ -357,6 +366,7 @@ class Report:
             else:
                 new.append((key, v))
         rdir = os.path.join(VERIF, "replay", self.pid)
+        shutil.rmtree(rdir, ignore_errors=True)     # witnesses of earlier runs are stale
         replay_paths = []
         if new:
             os.makedirs(rdir, exist_ok=True)
